@@ -1,6 +1,8 @@
 """C18 timed Queue / Executor / TaskExecutor: hand model (coq/C18_Timed) + lockstep scenarios, timing histories, a
 hook-driven late-cancel test and the window family (worker held at every yield point of Poll / the TaskExecutor wrapper
-x client operations completed meanwhile; DESIGN.md §7.18, notes/C18.md)."""
+x client operations completed meanwhile), the burst family (k pollers / workers parked on the empty queue, j >= 2 Adds back
+to back, the woken consumer withheld) and the preload family (extreme instants / equal instants in different representations
+queued with ordinary elements before polling starts); DESIGN.md §7.18, notes/C18.md."""
 from . import lib
 
 LEVEL = "proof"
@@ -19,16 +21,18 @@ def run(ctx):
     if thorough:
         for k in range(4):
             ctx.seed += 1000
-            ctx.corr(hx, ["run", "--scripts", "500", "--len", "16", "--hists", "256", "--grid", "50", "--hook", "2000", "--windows", "12"],
+            ctx.corr(hx, ["run", "--scripts", "500", "--len", "16", "--hists", "256", "--grid", "50", "--hook", "2000", "--windows", "12", "--burst", "6", "--preload", "150"],
                      cases_name="cases%d.v" % k)
         ctx.seed -= 4000
     else:
-        ctx.corr(hx, ["run", "--scripts", "200", "--len", "12", "--hists", "96", "--grid", "50", "--hook", "600", "--windows", "6"])
+        ctx.corr(hx, ["run", "--scripts", "200", "--len", "12", "--hists", "96", "--grid", "50", "--hook", "600", "--windows", "6", "--burst", "3", "--preload", "60"])
     ctx.assumptions += [
         "Queue.Add's shutdown test and its push are one atomic step of the model (the code tests IsShutdown before taking heapMutex; an Add racing with Shutdown was not reproduced in 3000 trials)",
         "PanicOnModificationsAfterShutdown, DontWaitForShutdown/shutdownWG and Poll(waitIfEmpty=false) are outside the model; workers are Poll(true) loops as in Executor.startBackgroundWorkers",
         "timer accuracy and scheduler latency are runtime behaviour: the timing runs judge recorded stamps with a guard band of one grid step (50 ms); the timer is modelled as 'fires at or after its time'",
         "C18_task_executor clauses 2-5 are for schedules passing te_guard: no Add whose size bound drops an element, no effective Shutdown with CancelPendingElements, no Cancel() through the returned *ScheduledTask of a task the map still tracks (exactly the patterns of finding taskexecutor-stale-identifier, witnesses C18_refuted_stale_identifier); clause 1 (a replaced/cancelled task never starts) is unguarded",
+        "C18_eventually_once_blocked: fairB is a premise on the schedule (a worker whose callback never returns is never stepped again, every other worker is scheduled infinitely often, clock unbounded); the burst family parks the pollers by reading the waiter count of sync.Cond (notifyList.wait - notify) through reflection",
+        "scheduled times are abstract instants (N) in the model; the harness maps time.Time values to instants order-preservingly (extreme instants by rank, ordinary ones in microseconds), so ordering by instant across representations (monotonic reading stripped, other Location, rebuilt from Unix seconds) and outside 1678..2262 is tied to the code by the correspondence and the Go-side oracle only; the min-heap order itself is transcribed (container/heap up/down), not proved to be sorted",
         "C18_eventually_once_fair: fairness is a premise on the schedule (only ticks and worker steps, every worker scheduled infinitely often, clock unbounded); real scheduler fairness and timer firing are runtime behaviour",
     ]
 
